@@ -13,9 +13,5 @@ pub assume_specification [i128::unsigned_abs](x: i128) -> (r: u128)
 pub assume_specification [i128::is_negative](x: i128) -> (r: bool)
     ensures r == (x < 0);
 
-// lossless widening conversions (vstd specifies only the signed sources)
-pub assume_specification [<i128 as From<u8>>::from](x: u8) -> (r: i128) ensures r == x;
-pub assume_specification [<i128 as From<u16>>::from](x: u16) -> (r: i128) ensures r == x;
-pub assume_specification [<i128 as From<u32>>::from](x: u32) -> (r: i128) ensures r == x;
-pub assume_specification [<i128 as From<u64>>::from](x: u64) -> (r: i128) ensures r == x;
+// lossless widening conversions: see std_from_int.rs (included in every unit)
 pub assume_specification<T> [<T as From<T>>::from](x: T) -> (r: T) ensures r == x;
